@@ -548,7 +548,7 @@ def build_program_cases(seed, i, tier):
             own = [it.name for it in prog.items if sp.assign[it.name] == m]
             rng.shuffle(own)
             empties = [n for n in own if prog.by_name[n].kind == "fn" and prog.by_name[n].body.endswith("{\n}\n")]
-            if empties and rng.random() < 0.8:
+            if empties and rng.random() < 0.9:
                 # a function with a parameter and an empty body as the last thing the module defines
                 e = rng.choice(empties)
                 own.remove(e)
@@ -648,6 +648,11 @@ HYGIENE_TEMPLATES = [
       "main.pn": 'import "greeter.pn";\n\nfn main() -> i32\n{\n\tgreet();\n\treturn: 7\n}\n',
       "util.pn": "pub fn write(x: i32) -> i32\n{\n\treturn: x + 1\n}\n"},
      ["main.pn", "greeter.pn", "util.pn"], ["main.pn", "greeter.pn"]),
+    ("private_structure_behind_a_pointer_in_a_pub_signature",
+     "REJECT",      # `Hidden` is private to lib.pn: the importer may not name it (the unchanged compiler rejects this)
+     {"lib.pn": "struct Hidden\n{\n\ta: i32,\n\tb: i32,\n}\n\npub fn poke(h: &Hidden) -> i32\n{\n\treturn: 1\n}\n",
+      "main.pn": 'import "lib.pn";\n\nfn relay(h: &Hidden)\n{\n}\n\nfn main() -> i32\n{\n\treturn: 0\n}\n'},
+     ["main.pn", "lib.pn"], None),
     ("private_type_captured_through_signature",
      "REJECT",      # no well-typed single-file program corresponds to it: the call passes another type than the function takes
      {"a.pn": "word64 Pair\n{\n\ta: i32,\n\tb: i32,\n}\n\npub fn pair_sum(p: Pair) -> i32\n{\n\treturn: p.a + p.b\n}\n",
@@ -1026,7 +1031,18 @@ def replay(record):
     disable_aslr()
     wd = os.path.join(work_root(), "C12", "replay-%d" % os.getpid())
     cls = record["observed"]["class"]
-    if record["kind"] == "case":
+    if record["kind"] == "case" and (record["case"].get("tag") or "").startswith("template:") and not record["case"].get("reference"):
+        # a program that has to be rejected
+        case = Case.from_json(record["case"])
+        fresh_dir(wd)
+        write_files(wd, case.files)
+        v = []
+        for order in case.orders:
+            p = parse_run(penne_run(wd, order, case.entropies[0]))
+            if p["verdict"] != "rejected":
+                v.append(("ill_typed_program_accepted", "order=%s: %s" % (order, p["verdict"])))
+                break
+    elif record["kind"] == "case":
         v = evaluate_case(Case.from_json(record["case"]), wd)
     elif record["kind"] == "negative":
         v = evaluate_negative(record["negative"], wd)
